@@ -26,7 +26,13 @@ type crashCase struct {
 	code  []uint8
 }
 
-func (c crashCase) String() string { return fmt.Sprintf("%s %s %s", c.spec, c.model, hexOf(c.code)) }
+func (c crashCase) String() string {
+	h := hexOf(c.code)
+	if h == "" {
+		h = "-"
+	}
+	return fmt.Sprintf("%s %s %s", c.spec, c.model, h)
+}
 
 var crashAddrs = []uint16{0x0000, 0x0001, 0x0002, 0x0007, 0x0008, 0x000F, 0x0010, 0x00FF, 0x0100, 0x01FF, 0x3FFF, 0x4000, 0x7FFF, 0x8000,
 	0x9EFF, 0x9F00, 0x9FFF, 0xA000, 0xBFFF, 0xC000, 0xDDFF, 0xDE00, 0xDEFF, 0xDF00, 0xDFFE, 0xDFFF, 0xE000, 0xFFFE, 0xFFFF}
@@ -40,6 +46,11 @@ func genCrashCase(r *rng.R, spec string) crashCase {
 		n := 1 + r.Intn(8)
 		c.code = make([]uint8, n)
 		c.model = fmt.Sprintf("%s:%04x", []string{"preload", "copyrun"}[r.Intn(2)], at)
+		if r.Chance(30) {
+			// a program FILE of 0..4 bytes (or more) handed to Load / LoadAndRun
+			c.code = make([]uint8, r.Intn(5))
+			c.model = "loadfile:0000"
+		}
 		return c
 	}
 	p := []uint8{}
@@ -86,6 +97,29 @@ func genCrashCase(r *rng.R, spec string) crashCase {
 func runCrashCase(c crashCase) string {
 	cfg := emuconfig.DefaultConfig()
 	cfg.MemSpec = c.spec
+	if strings.HasPrefix(c.model, "loadfile:") {
+		res := "halt"
+		if protect(func() {
+			f, err := os.CreateTemp("", "verif-loadfile")
+			if err != nil {
+				panic(err)
+			}
+			f.Write(c.code)
+			f.Close()
+			defer os.Remove(f.Name())
+			p, err := cfg.NewCpu()
+			if err != nil {
+				res = "builderr"
+				return
+			}
+			if _, _, err := p.LoadAndRun(f.Name()); err != nil {
+				res = "error"
+			}
+		}) {
+			res = "hostcrash"
+		}
+		return res
+	}
 	if strings.HasPrefix(c.model, "preload:") || strings.HasPrefix(c.model, "copyrun:") {
 		var at uint16
 		fmt.Sscanf(c.model[8:], "%04x", &at)
@@ -161,6 +195,9 @@ func parseCrashCase(line string) (crashCase, bool) {
 		return crashCase{}, false
 	}
 	code := []uint8{}
+	if f[2] == "-" {
+		f[2] = ""
+	}
 	for i := 0; i+1 < len(f[2]); i += 2 {
 		var b uint8
 		fmt.Sscanf(f[2][i:i+2], "%02x", &b)
